@@ -254,9 +254,11 @@ impl<'de, R: Reader<'de>> Parser<R> {
 //@sig
         requires old(self).pinv(),
         ensures final(self).pinv(), final(self).same_doc(old(self)), final(self).same_cache(old(self)), final(self).read.idx() == old(self).read.idx(),
-            // "true" means: invalid UTF-8 lies before the reader AND it is tolerated (the caller repairs the text)
-            res.is_ok() && res.unwrap() ==> allowed,
-            allowed ==> res.is_ok(),
+            // Ok(false): the consumed part is clean. Invalid UTF-8 before the reader is an error unless it is tolerated
+            // (`allowed`: the caller repairs the text), and then the answer is Ok(true)
+            old(self).utf8_clean() ==> res.is_ok() && !res.unwrap() && final(self).utf8_clean(),
+            !old(self).utf8_clean() && !allowed ==> res.is_err(),
+            !old(self).utf8_clean() && allowed ==> res.is_ok() && res.unwrap(),
 //@end
 
 //@extract file=src/parser.rs impl="Parser<R>" fn=parse_str
@@ -279,6 +281,9 @@ impl<'de, R: Reader<'de>> Parser<R> {
             // utf8_lossy a literal whose text had to be repaired is handed out as a copy
             (res.is_ok() && !old(self).cfg.utf8_lossy) ==> ((res.unwrap() is Borrowed) <==> !has_bs(old(self).read.data(), old(self).read.idx() as int, final(self).read.idx() as int)),
             final(self).read.idx() >= old(self).read.idx(),
+            // C02, UTF-8 half: in the default configuration an accepted literal (and everything consumed before it) holds
+            // no invalid UTF-8
+            (res.is_ok() && !old(self).cfg.utf8_lossy) ==> final(self).utf8_clean(),
 //@end
 }
 
